@@ -197,6 +197,18 @@ def gen_scipy(rng, tier):
                     lock_angles = [math.degrees(lock_angles[0]), lockd, math.degrees(lock_angles[2])]
                 cases.append({'op': 'euler', 'seq': s, 'degrees': deg, 'angles': [gen_angles], 'single': rng.random() < 0.5, 'gimbal': False})
                 cases.append({'op': 'euler', 'seq': s, 'degrees': deg, 'angles': [lock_angles, gen_angles], 'single': False, 'gimbal': True})
+        # second angle at the values that are singular for the OTHER class of sequences (exactly 90 deg for A-B-A, exactly 0 / 45 deg for A-B-C):
+        # regular configurations that a misplaced gimbal-lock test would treat as singular (added after round-2 seeded change C12-b2)
+        for seq in SEQS3:
+            for intrinsic in (False, True):
+                s = seq.upper() if intrinsic else seq
+                sym = seq[0] == seq[2]
+                for special in ((90.0, -90.0 + 180.0) if sym else (0.0, 45.0)):
+                    deg = rng.random() < 0.5
+                    ang = [rng.choice([30.0, -75.0, 160.0]), special, rng.choice([45.0, -120.0, 10.0])]
+                    if not deg:
+                        ang = [math.radians(a) for a in ang]
+                    cases.append({'op': 'euler', 'seq': s, 'degrees': deg, 'angles': [ang], 'single': rng.random() < 0.5, 'gimbal': False})
         for seq in ['x', 'y', 'z', 'xy', 'yx', 'zy', 'xz', 'ZX', 'YZ', 'Z']:
             n = len(seq)
             cases.append({'op': 'euler_short', 'seq': seq, 'degrees': rng.random() < 0.5,
